@@ -570,7 +570,8 @@ static inline bool pick_fp_opcode(const Vec& reg, uint32_t s_op, uint32_t s_hf, 
     uint32_t q = diff(reg.reg_type(), RegType::kVec64);
     uint32_t sz = diff(reg.element_type(), VecElementType::kH);
 
-    if (q > 1u || sz > 2u || !Support::bit_test(sz_bits_table[v_hf].size_mask, sz)) {
+    // 64-bit vector of D elements (.1D) is not a valid arrangement (sz:Q == 1:0 is reserved).
+    if (q > 1u || sz > 2u || (sz == 2u && q == 0u) || !Support::bit_test(sz_bits_table[v_hf].size_mask, sz)) {
       return false;
     }
 
